@@ -225,6 +225,75 @@ def renameRightRowOnly (l r : TType) : Option (FieldList × FieldList) :=
   let vs := valueFields r
   (dedupAll (allNames l) (names vs)).map fun new => (renameFields vs new, r.globals)
 
+/-! ### Keyed lookups: `right[exprs]` / `right.index(*exprs, all_matches=…)` used in an annotation of another table
+
+`Table._index` reports, for the looked-up value, the right table's row-value struct — an ARRAY of it with `all_matches=True` — and
+emits one of three join nodes, whose `typ` in the engine inserts the root field:
+* `TableLeftJoinRightDistinct(left, right, root)`: `root : right.valueType`;
+* `TableIntervalJoin(left, right, root, product)`: `root : right.valueType`, `array<right.valueType>` when `product`;
+* with `all_matches=True` and a point key: `TableLeftJoinRightDistinct` on `right.collect_by_key(uid)` (value type
+  `struct{uid: array<right.valueType>}`), the result projected at `uid`.
+`MatrixAnnotateRowsTable(child, table, root, product)` / `MatrixAnnotateColsTable(child, table, root)` follow the same two rules. -/
+
+def structFields : FieldList → HailVerif.ExprIR.Fields
+  | [] => .nil
+  | (n, t) :: r => .cons n t (structFields r)
+
+/-- the right table's row-value struct type -/
+def valueStruct (r : TType) : HType := .struct (structFields (valueFields r))
+
+/-- the join node the front end emits for a lookup -/
+inductive IndexNode where
+  | leftJoinRightDistinct (collected : Bool)   -- `collected`: on `right.collect_by_key(uid)`, projected at `uid`
+  | intervalJoin (product : Bool)
+  deriving DecidableEq
+
+/-- `is_interval`: one expression, of the point type of the right table's first (interval) key field -/
+def isIntervalIndex (r : TType) (exprTypes : List HType) : Bool :=
+  match exprTypes, keyType r with
+  | [e], some ((_, .interval p) :: _) => e == p
+  | _, _ => false
+
+/-- `Table._index`: which node is emitted (`none`: `TableIndexKeyError`) -/
+def chooseNode (r : TType) (exprTypes : List HType) (allMatches : Bool) : Option IndexNode :=
+  match keyType r with
+  | none => none
+  | some kr =>
+    let iv := isIntervalIndex r exprTypes
+    if !(kr.map (·.2) == exprTypes) && !iv then none
+    else if allMatches && !iv then some (.leftJoinRightDistinct true)
+    else if iv then some (.intervalJoin allMatches)
+    else some (.leftJoinRightDistinct false)
+
+/-- the type the front end attaches to the looked-up value (`new_schema`) -/
+def rootReported (r : TType) (exprTypes : List HType) (allMatches : Bool) : Option HType :=
+  (chooseNode r exprTypes allMatches).map fun _ => if allMatches then .array (valueStruct r) else valueStruct r
+
+/-- the type of the root field the emitted node inserts, by the engine's rule for that node -/
+def nodeRoot (r : TType) : IndexNode → HType
+  | .leftJoinRightDistinct false => valueStruct r
+  | .leftJoinRightDistinct true => .array (valueStruct r)
+  | .intervalJoin product => if product then .array (valueStruct r) else valueStruct r
+
+def rootIR (r : TType) (exprTypes : List HType) (allMatches : Bool) : Option HType :=
+  (chooseNode r exprTypes allMatches).map (nodeRoot r)
+
+/-- how the looked-up value is used in the annotation: as it is, or under `hl.len` (an array is required) -/
+def useRoot (len : Bool) (t : HType) : Option HType :=
+  if !len then some t else match t with
+    | .array _ => some .int32
+    | _ => none
+
+/-- `left.annotate(m = use(right.index(exprs, all_matches)))`: reported type / type implied by the emitted IR (`none` of `some`:
+ill-typed) -/
+def indexAnnotate (root : TType → List HType → Bool → Option HType) (l r : TType) (exprTypes : List HType) (allMatches len : Bool)
+    (m : String) : Option TType :=
+  match root r exprTypes allMatches with
+  | none => none
+  | some t => match useRoot len t with
+    | none => none
+    | some u => annotate l [(m, u)]
+
 /-- every key field is a row field -/
 def WellKeyed (t : TType) : Prop := ∀ k ∈ t.key, (lookupF t.row k).isSome = true
 
